@@ -305,6 +305,10 @@ def _get_numpy_value(
     """
     if val is None:
         return None
+    if val.is_graph_input():
+        # An initializer that is also a graph input is a default value that the caller
+        # may override: it is not a constant.
+        return None
     const_value = val.const_value
     if const_value is not None:
         if dtype is not None and const_value.dtype != dtype:
